@@ -24,7 +24,7 @@ SPEC = {
     "assumptions": ["'conformant' = what the CTfile specification permits and the harness renderer produces; headers ASCII; no trailing blanks after a continuation dash; coordinates as fixed-point decimals or in exponent notation with 'e'/'E' (the corpus itself contains 'e' spellings), no leading '+'; physical lines <= 79 characters + newline",
                     "coordinates compare as float(token)"],
     "monitors_required": ["c07_model_compare", "c07_explicit_default_relation"],
-    "required_obs": {"quick": ["split_class", "multi_split_lines", "star_files", "sgroup_text_with_quotes", "star_endpoints_ge_10", "extra_kw/EXACHG", "explicit_default", "explicit_default_mass_on_DT", "dt_seen", "cov_graph_from_file", "cov_every_offset_lines",
+    "required_obs": {"quick": ["star_atom_shared_by_several_bond_lines", "split_class", "multi_split_lines", "star_files", "sgroup_text_with_quotes", "star_endpoints_ge_10", "extra_kw/EXACHG", "explicit_default", "explicit_default_mass_on_DT", "dt_seen", "cov_graph_from_file", "cov_every_offset_lines",
                                "cov_zero_bond_file", "cov_crlf", "cov_mixed_lf_crlf_line_terminators", "cov_exponent_notation_coordinates", "cov_corpus_files_vs_own_reader"]},
     "watchdog_s": {"quick": 900, "thorough": 5400},
 }
